@@ -401,6 +401,71 @@ type gen struct {
 	rng   *Rng
 	calls int
 	ops   int
+	accs  [][4]int64 // the initial table (to write tx-start values back)
+	stor  [][3]int64
+	// restores: ops that put a field back to the value it had when the tx started; each becomes
+	// eligible once at least one more precompile call has been generated after the first write
+	pending []pendingRestore
+}
+
+type pendingRestore struct {
+	op         op
+	callsAtGen int
+}
+
+func (g *gen) initAcc(a int64) (bal, nonce, code int64) {
+	for _, x := range g.accs {
+		if x[0] == a {
+			return x[1], x[2], x[3]
+		}
+	}
+	return 0, 0, 0
+}
+
+func (g *gen) initSlot(a, k int64) int64 {
+	for _, x := range g.stor {
+		if x[0] == a && x[1] == k {
+			return x[2]
+		}
+	}
+	return 0
+}
+
+// roundtrip writes a value different from the tx-start one now and schedules the write-back.
+func (g *gen) roundtrip() op {
+	r := g.rng
+	a := g.addr()
+	_, n0, c0 := g.initAcc(a)
+	var now, back op
+	switch r.Pick(3, 3, 2, 3) {
+	case 0: // nonce (the msg server resets the sender nonce and sets it again after the call)
+		now, back = op{K: "sn", A: a, V: n0 + int64(r.Range(1, 2))}, op{K: "sn", A: a, V: n0}
+		if n0 > 0 && r.Chance(1, 2) {
+			now.V = n0 - 1
+		}
+	case 1: // balance: + x … - x
+		x := int64(r.Range(1, 9)) * 1_000_000_000_000
+		now, back = op{K: "ab", A: a, V: x}, op{K: "sb", A: a, V: x}
+	case 2: // code
+		now, back = op{K: "sc", A: a, V: (c0 + 1) % 3}, op{K: "sc", A: a, V: c0}
+	default: // storage
+		k := int64(r.Range(1, 2))
+		v0 := g.initSlot(a, k)
+		now, back = op{K: "ss", A: a, B: k, V: (v0 + int64(r.Range(1, 3))) % 4}, op{K: "ss", A: a, B: k, V: v0}
+	}
+	g.pending = append(g.pending, pendingRestore{op: back, callsAtGen: g.calls})
+	return now
+}
+
+// due returns a scheduled write-back that has seen a precompile call since its first write.
+func (g *gen) due() (op, bool) {
+	for i, p := range g.pending {
+		if g.calls > p.callsAtGen {
+			g.pending = append(g.pending[:i:i], g.pending[i+1:]...)
+			return p.op, true
+		}
+	}
+	return op{}, false
 }
 
 func (g *gen) addr() int64 { return int64(g.rng.Range(1, nAddr)) }
@@ -490,11 +555,25 @@ func (g *gen) body(depth, maxLen int) []op {
 	var out []op
 	for i := 0; i < n && g.ops < 60; i++ {
 		g.ops++
+		if back, ok := g.due(); ok && r.Chance(2, 5) {
+			out = append(out, back)
+			continue
+		}
 		switch {
 		case depth < 6 && r.Chance(18, 100):
 			out = append(out, op{K: "fr", Body: g.body(depth+1, 5), Flag: r.Chance(1, 2)})
+		case g.calls < 11 && depth < 6 && r.Chance(8, 100):
+			// an earlier call succeeds, a later call's frame reverts
+			first := g.precompile()
+			first[0].Flag = false
+			out = append(out, first...)
+			inner := g.precompile()
+			inner = append(inner, g.body(depth+1, 2)...)
+			out = append(out, op{K: "fr", Body: inner, Flag: true})
 		case g.calls < 12 && r.Chance(22, 100):
 			out = append(out, g.precompile()...)
+		case r.Chance(15, 100):
+			out = append(out, g.roundtrip())
 		default:
 			out = append(out, g.simple())
 		}
@@ -512,9 +591,16 @@ var initVariants = []struct {
 }
 
 func genCase(r *Rng) c04Input {
-	g := &gen{rng: r}
 	v := initVariants[r.Pick(3, 4, 2)]
-	return c04Input{Accs: v.accs, Stor: v.stor, Script: g.body(0, 9)}
+	g := &gen{rng: r, accs: v.accs, stor: v.stor}
+	script := g.body(0, 9)
+	// write-backs still scheduled go to the top level, after everything else
+	for _, p := range g.pending {
+		if g.calls > p.callsAtGen && r.Chance(3, 4) {
+			script = append(script, p.op)
+		}
+	}
+	return c04Input{Accs: v.accs, Stor: v.stor, Script: script}
 }
 
 const U = 1_000_000_000_000
@@ -537,6 +623,13 @@ func openers() []c04Input {
 			fr(true, op{K: "sn", A: 1, V: 4}, pc(false, [3]int64{1, 2, 30}), op{K: "ss", A: 1, B: 3, V: 2}),
 			pc(false, [3]int64{1, 3, 10}), {K: "to", A: 1}, {K: "to", A: 3}, {K: "sn", A: 1, V: 6}},
 		many,
+		// a field changed, flushed by a successful call, a LATER call's frame reverted, then the field written
+		// back to its tx-start value (nonce: the msg server's reset/set pattern; balance; code; storage)
+		{{K: "sn", A: 1, V: 0}, pc(false), fr(true, pc(false)), {K: "sn", A: 1, V: 1}},
+		{{K: "ab", A: 1, V: 3 * U}, pc(false), fr(true, pc(false)), {K: "sb", A: 1, V: 3 * U}},
+		{{K: "sc", A: 4, V: 2}, pc(false), fr(true, pc(false, [3]int64{1, 2, 1})), {K: "sc", A: 4, V: 1}},
+		{{K: "ss", A: 4, B: 1, V: 3}, pc(false), fr(true, pc(false), op{K: "ss", A: 4, B: 1, V: 0}), {K: "ss", A: 4, B: 1, V: 2}},
+		{{K: "sn", A: 1, V: 0}, pc(false), pc(true), {K: "sn", A: 1, V: 1}, pc(false), fr(true, pc(false), op{K: "sn", A: 1, V: 5})},
 		// a slot written, flushed by a precompile call, then written back to its committed value
 		{{K: "ss", A: 4, B: 1, V: 3}, pc(false), {K: "ss", A: 4, B: 1, V: 2}, {K: "rs", A: 4, B: 1}},
 		{{K: "rs", A: 4, B: 1}, fr(true, op{K: "ss", A: 4, B: 1, V: 3}, pc(false, [3]int64{1, 2, 1}), op{K: "rs", A: 4, B: 1}), {K: "rs", A: 4, B: 1}, {K: "ss", A: 4, B: 1, V: 0}},
